@@ -791,9 +791,11 @@ def xobject_prepare(run, docs, outs):
             jpeg = spec['fmt'] != 'png'
             if jpeg and 'jpeg_quality' not in d['options']:
                 if it['code'] == 1 and not d['options'].get('optimize_images') and not r['same_bytes']:
-                    fail('JPEG with identity orientation and no option is not passed through byte for byte', d, it, {},
-                         'c13:jpeg-not-passthrough')
-                if not r['same_bytes'] and p['qtables'] != r['src_qtables']:
+                    fail('JPEG whose orientation is the identity (image-orientation:%s, EXIF orientation %s) and no option is not '
+                         'passed through byte for byte%s' % (it['orientation'], spec['exif'],
+                                                            ' and is re-quantised' if p['qtables'] != r['src_qtables'] else ''),
+                         d, it, {}, 'c13:jpeg-exif-identity-reencoded')
+                elif not r['same_bytes'] and p['qtables'] != r['src_qtables']:
                     if d['options'].get('optimize_images'):
                         fail('optimize_images (documented lossless) re-quantised JPEG %s' % it['id'], d, it, {},
                              'c13:optimize-images-jpeg-lossy')
@@ -828,10 +830,10 @@ def xobject_finish(run, xo, ndocs):
             done.add(2)
             run.fail('painted samples / dimensions / alpha of the embedded image are not those of the oriented source: ' + what,
                      dict(stream='xobject-modes', item=it, options=d['options'], coq_case=case, mask=k), signature='c13:xobject-painted')
-        elif k & 8 and not k & 2:
+        elif k & 8 and 8 not in done:
+            done.add(8)
             run.fail('image-orientation angle applied counter-clockwise: ' + what,
-                     dict(stream='xobject-modes', item=it, options=d['options'], coq_case=case, mask=k),
-                     signature='c13:image-orientation-angle-counterclockwise')
+                     dict(stream='xobject-modes', item=it, options=d['options'], coq_case=case, mask=k), signature='c13:xobject-painted')
         if k & 1 and 1 not in done:
             done.add(1)
             run.fail('image XObject attributes (ColorSpace, /Decode, SMask, Width/Height, BitsPerComponent, Filter) differ from the '
